@@ -284,6 +284,11 @@ func (m *LifeMon) OnEvent(c *eng.Ctx, ms eng.MState, ev *eng.Event) eng.MState {
 				}
 			}
 		}
+		if di >= 0 && ti < 0 && ev.Chosen < 0 {
+			// a non-blocking poll of ctx.Done() that took its default case: Done is not closed, the
+			// context is not cancelled at this point - an observation like ctx.Err() == nil
+			s.obs, s.fresh, s.cut = nil, true, false
+		}
 		if di >= 0 && ev.Chosen == di {
 			s.obs, s.fresh, s.cut, s.cutAny = nil, false, true, true
 			if ti >= 0 {
